@@ -285,25 +285,7 @@ func checkC13(c *Ctx, r *Report) {
 	// ---- C13.e no scheduling-dependent order: the analysis and generation path is sequential.
 	// Identifier allocation (import serials, edge ordinals) and every append-in-visit-order
 	// list depend on the order of execution; a goroutine makes that order a property of the run.
-	{
-		viol := ""
-		var sites []string
-		n := 0
-		for _, fn := range c.W.SSAFuncs {
-			allInstrsLocal(fn, false, func(f *ssa.Function, _ *ssa.BasicBlock, _ int, ins ssa.Instruction) {
-				if g, ok := ins.(*ssa.Go); ok {
-					n++
-					sites = append(sites, c.W.pos(g.Pos()))
-					viol = fmt.Sprintf("%s: %s starts a goroutine: first-come allocations made on that path (SyncedProvider.GetIdForKey serials, graph edge ordinals, append order) then depend on scheduling, so two runs over the same project can emit different identifiers", c.W.pos(g.Pos()), fnShort(f))
-				}
-			})
-		}
-		if n == 0 {
-			sites = append(sites, "gleece:0")
-		}
-		o := r.add("C13.e", "sequential", "no-goroutines-in-analysis-or-generation", fmt.Sprintf("no `go` statement in the %d analysed functions", len(c.W.SSAFuncs)), []string{"gleece"}, sites, viol)
-		o.NonTrivial = true
-	}
+	checkNoGoroutines(c, r, "C13.e")
 
 	// ---- C13.f the artifacts do not depend on what an earlier run left at the output path
 	for _, fnk := range []string{"generator/routes.GenerateRoutes", "generator/swagen.GenerateAndOutputSpec"} {
@@ -494,5 +476,27 @@ func ruleNoIRMutation(c *Ctx, r *Report, clause string) {
 		viol = "expected the tabled AppendErrorSchema site (rule would pass vacuously)"
 	}
 	o := r.add(clause, "whowrites", "generators:no-IR-mutation", "generators, validators and cmd only read the flattened metadata (definitions.*); the single tabled exception is AppendErrorSchema", keysOf(allowed), ss, viol)
+	o.NonTrivial = true
+}
+
+// checkNoGoroutines (C13.e / C14.c): the analysis and generation path is sequential - no
+// scheduling-dependent order, and no wait on a goroutine that can block a run for ever.
+func checkNoGoroutines(c *Ctx, r *Report, clause string) {
+	viol := ""
+	var sites []string
+	n := 0
+	for _, fn := range c.W.SSAFuncs {
+		allInstrsLocal(fn, false, func(f *ssa.Function, _ *ssa.BasicBlock, _ int, ins ssa.Instruction) {
+			if g, ok := ins.(*ssa.Go); ok {
+				n++
+				sites = append(sites, c.W.pos(g.Pos()))
+				viol = fmt.Sprintf("%s: %s starts a goroutine: first-come allocations made on that path (SyncedProvider.GetIdForKey serials, graph edge ordinals, append order) then depend on scheduling, so two runs over the same project can emit different identifiers", c.W.pos(g.Pos()), fnShort(f))
+			}
+		})
+	}
+	if n == 0 {
+		sites = append(sites, "gleece:0")
+	}
+	o := r.add(clause, "sequential", "no-goroutines-in-analysis-or-generation", fmt.Sprintf("no `go` statement in the %d analysed functions", len(c.W.SSAFuncs)), []string{"gleece"}, sites, viol)
 	o.NonTrivial = true
 }
